@@ -205,7 +205,7 @@ def gen_cases(ctx, quick):
     pow2 = [2, 4, 8, 16, 32] if quick else [2, 4, 8, 16, 32, 64]
     nmax = 32 if quick else 64
     dmax = 12 if quick else 30
-    rounds = 10 if quick else 120
+    rounds = 10 if quick else 250
     cases = []
 
     def add(label, topic, solver, rows, N, D, d, exact, rank):
